@@ -77,7 +77,12 @@ func genSPDXNode(t *rapid.T, id string) *sbom.Node {
 		n.Identifiers[int32(rapid.IntRange(1, 4).Draw(t, "idt"))] = tx.Draw(t, "idv")
 	}
 	for i := rapid.IntRange(0, 3).Draw(t, "ner"); i > 0; i-- {
-		er := &sbom.ExternalReference{Url: hx.TextPlainNE().Draw(t, "erurl"), Comment: tx.Draw(t, "ercm"), Authority: tx.Draw(t, "erau"),
+		// one reference in six has no locator (SPDX cannot carry it: the projection leaves it out; its neighbours stay)
+		erURL := ""
+		if rapid.IntRange(0, 5).Draw(t, "erurl?") > 0 {
+			erURL = hx.TextPlainNE().Draw(t, "erurl")
+		}
+		er := &sbom.ExternalReference{Url: erURL, Comment: tx.Draw(t, "ercm"), Authority: tx.Draw(t, "erau"),
 			Type: sbom.ExternalReference_ExternalReferenceType(rapid.IntRange(0, nExtRefTypes-1).Draw(t, "ert"))}
 		if rapid.Bool().Draw(t, "erh") {
 			er.Hashes = map[int32]string{int32(rapid.IntRange(1, 12).Draw(t, "erha")): tx.Draw(t, "erhv")}
